@@ -152,6 +152,7 @@ func (conn *Conn) recv() {
 				req.next.prev = req
 			}
 			conn.Unlock()
+			verifPoint("recv.enqueued", req, uint32(tag), uint32(fc.Type))
 			if process {
 				// Tversion may change some attributes of the
 				// connection, so we block on it. Otherwise,
